@@ -220,9 +220,9 @@ impl Exec {
                 if !w.alive[c] || w.last_ans[c] != Ans::Pending || w.fired_latest[c] {
                     continue;
                 }
-                let sc = &w.scripts[c];
-                let exhausted = w.cursor[c] >= sc.steps.len();
-                if exhausted && sc.tail == "never" {
+                // a never-completing child is not woken by the epilogue (only by explicit `fire` commands),
+                // whether or not it still has scripted steps left: same rule as Owed in the L2 specs
+                if w.scripts[c].tail == "never" {
                     continue;
                 }
                 v.push(c);
